@@ -293,7 +293,15 @@ fn run(cx: &Cx) {
 }
 
 fn replay(case: &J) -> String {
-    format!("re-run the check; case = {case}")
+    let refs = Schema::from_sdl(s1::SDL).unwrap();
+    let schema = s1::schema();
+    let cx = Cx::scratch("C22", "exploration");
+    let cnt = Cnt { views: AtomicU64::new(0), with_children: AtomicU64::new(0), agree: AtomicU64::new(0) };
+    let vars = case["variables"].as_object().cloned().unwrap_or_default();
+    let table = agv_common::glue::table_from_json(&case["world"]);
+    check_case(&cx, &refs, &schema, case["query"].as_str().unwrap_or(""), &vars, table, &cnt);
+    cx.nontrivial_count(2);
+    cx.finish_scratch()
 }
 
 fn main() {
